@@ -47,6 +47,42 @@ def observations(ag, x):
             return out
 
 
+def _enc(a):
+    return [f2b(v) if not math.isnan(v) else "nan" for v in np.asarray(a, dtype=float).ravel()]
+
+
+# every read entry point, each usable as the FIRST read after a write (the one that has to refresh the cache);
+# needs_local_optimization() is not among them: whether constants still await optimization legitimately depends on the history
+READERS = [
+    ("nparams", lambda ag, x: ag.get_number_local_optimization_params()),
+    ("complexity", lambda ag, x: ag.get_complexity()),
+    ("str", lambda ag, x: str(ag)),
+    ("sympy", lambda ag, x: ag.get_formatted_string("sympy")),
+    ("value", lambda ag, x: _enc(ag.evaluate_equation_at(x))),
+    ("x-gradient", lambda ag, x: [_enc(p) for p in ag.evaluate_equation_with_x_gradient_at(x)]),
+    ("c-gradient", lambda ag, x: [_enc(p) for p in ag.evaluate_equation_with_local_opt_gradient_at(x)]),
+    ("constants", lambda ag, x: [f2b(float(c)) for c in ag.constants]),
+    ("utilized", lambda ag, x: list(map(bool, ag.get_utilized_commands()))),
+]
+
+
+def first_reads(ag, x):
+    """name -> what each reader returns when it is the first read on (a copy of) the object; exceptions by class name"""
+    out = {}
+    with warnings.catch_warnings():
+        warnings.simplefilter("ignore")
+        with np.errstate(all="ignore"):
+            for name, fn in READERS:
+                probe = copy.deepcopy(ag)
+                try:
+                    out[name] = fn(probe, x)
+                except (MemoryError, OverflowError, RecursionError, Timeout):
+                    raise
+                except Exception as exc:
+                    out[name] = "raise:" + type(exc).__name__
+    return out
+
+
 def fresh_like(ag):
     f = AGraph(use_simplification=ag._use_simplification)
     f.command_array = np.array(ag.command_array, copy=True)
@@ -157,6 +193,16 @@ def run(ctx, rep):
                     rep.violate(f"observations {diff} differ from those of a freshly constructed equation", "C18:differs-from-fresh", case)
                     ok = False
                     break
+                if ag._modified:
+                    # the cache is stale right now: EVERY read entry point must refresh it when it comes first
+                    f1, f2 = first_reads(ag, x), first_reads(fresh_like(ag), x)
+                    rep.count("first_read_checks")
+                    if f1 != f2:
+                        diff = [k_ for k_ in f1 if f1[k_] != f2[k_]]
+                        rep.violate(f"as the FIRST read after the last write, {diff} differ from those of a freshly constructed equation "
+                                    f"({ {k_: (f1[k_], f2[k_]) for k_ in diff[:2]} })", "C18:differs-from-fresh", case)
+                        ok = False
+                        break
                 # copy: equal and independent
                 if rng.random() < 0.3:
                     cp = ag.copy()
